@@ -400,9 +400,11 @@ theorem serverRole_keepsTyped (H : Hs) (tok : Nat) (tt : Option Nat) : (serverRo
     · split
       · exact h
       · split
-        · exact ⟨h.1, h.2.1, h.2.2⟩
-        · simp only
-          exact typed_sendType _ .serverHello _ 0 none (by decide) ⟨h.1, h.2.1, h.2.2⟩
+        · exact h
+        · split
+          · exact ⟨h.1, h.2.1, h.2.2⟩
+          · simp only
+            exact typed_sendType _ .serverHello _ 0 none (by decide) ⟨h.1, h.2.1, h.2.2⟩
   · intro c t p h
     show Typed (serverChallenge H tt c t p).1
     unfold serverChallenge
